@@ -1,9 +1,173 @@
-(* Props/C08.v — property C08: Bloch Hamiltonian reproduces the tiled spectrum. *)
-From Coq Require Import List ZArith Bool Arith.
-From Koala Require Import Gen.TilingGen Model.Lattice Model.Tiling Model.Bloch Proofs.BlochFacts.
+(* Props/C08.v — property C08: the Bloch Hamiltonian of a unit cell reproduces the spectrum of the
+   nx x ny periodic tiling of that cell; it is Hermitian, 2*pi-periodic, equals the real-space Hamiltonian
+   at k = 0; the analysis helpers are the stated functionals of the eigenvalue lists.
+
+   Models: Model/Bloch.v (bond sums with FORMAL phases w = e^{ik} over any commutative ring; parallel edges
+   ACCUMULATE, as in the code after fix b8fbd8d), Model/Tiling.v (tile_unit_cell over the helpers GENERATED
+   from example_graphs.py).  NOT covered by a theorem (numerical, checked by S on the implementation,
+   harness/c08.py): LAPACK's eigvalsh and float exp; and the standard step from the intertwining relation to
+   equality of spectra (the nx*ny Bloch-wave blocks Phi_k for the nx*ny pairs of roots of unity form an
+   invertible Vandermonde (x) identity matrix, so A_tiled is similar to the direct sum of the H(k)). *)
+From Coq Require Import List ZArith Bool Arith QArith Qabs Ring.
+From Koala Require Import Gen.TilingGen Model.Lattice Model.Tiling Model.Examples Model.Bloch
+     Proofs.TilingFacts Proofs.BlochFacts.
 Import ListNotations.
 Open Scope Z_scope.
 
-Theorem C08_gi_pow_periodic : forall a, gi_pow (a + 4) = gi_pow a.
-Proof. exact gi_pow_periodic. Qed.
-Print Assumptions C08_gi_pow_periodic.
+(* Clause "union over the allowed momenta of the Bloch spectra = spectrum of the tiling", algebraic core.
+   For EVERY commutative ring R, every well-formed unit cell (crossings in {-1,0,1}^2; multi-edges and
+   self-loops allowed), all nx, ny >= 1, all bond weights t (at [k_e,j_e]) and tb (at [j_e,k_e]), and every
+   pair (wx, wy) of an nx-th and an ny-th root of unity with inverses wxi, wyi:
+        A_tiled . Phi  =  Phi . H(wx, wy)
+   where A_tiled is the real-space bond-sum Hamiltonian of tile_unit_cell(cell, nx, ny) with the weights
+   repeated per cell, H(w) the Bloch matrix in the code's convention (t_e w^{c_e} at [k_e,j_e], tb_e w^{-c_e}
+   at [j_e,k_e]) and Phi[(m,s),s'] = delta_{s s'} wx^{-mx} wy^{-my} (m = my*nx + mx).  Every column of Phi is
+   thus mapped by A_tiled into the column space of Phi with matrix H(w): H(w)'s eigenvalues are eigenvalues
+   of the tiling. *)
+Theorem C08_bloch_intertwines :
+  forall (R : Type) (rO rI : R) (radd rmul rsub : R -> R -> R) (ropp : R -> R),
+  ring_theory rO rI radd rmul rsub ropp eq ->
+  forall (c : unit_cell) (nx ny : Z) (t tb : list R) (wx wxi wy wyi : R),
+  wf_cell c = true -> 1 <= nx -> 1 <= ny ->
+  zlen t = n_uedges c -> zlen tb = n_uedges c ->
+  rmul wx wxi = rI -> rmul wy wyi = rI ->
+  rpow R rI rmul wx (Z.to_nat nx) = rI -> rpow R rI rmul wy (Z.to_nat ny) = rI ->
+  forall row s' : Z, 0 <= row < nx * ny * n_sites c -> 0 <= s' < n_sites c ->
+  mat_mul R rO radd rmul (nx * ny * n_sites c)
+          (ham_entry R rO radd (tile_edges c nx ny) (tile_weights R t nx ny) (tile_weights R tb nx ny))
+          (bloch_phi R rO rI rmul nx (n_sites c) wxi wyi) row s'
+  = mat_mul R rO radd rmul (n_sites c)
+          (bloch_phi R rO rI rmul nx (n_sites c) wxi wyi)
+          (hk_entry R rO rI radd rmul (uc_edges c) (uc_crossing c) t tb wx wxi wy wyi) row s'.
+Proof. exact bloch_intertwines. Qed.
+Print Assumptions C08_bloch_intertwines.
+
+(* The tiling that A_tiled refers to is the one tile_unit_cell builds (shared with C10): copy (mx,my) of
+   edge e = (j,k), crossing (cx,cy), joins site j of cell (mx,my) to site k of cell
+   ((mx+cx) mod nx, (my+cy) mod ny); its crossing is the wrap indicator; exactly nx*ny copies. *)
+Theorem C08_tile_structure :
+  forall (c : unit_cell) (nx ny : Z), 1 <= nx -> 1 <= ny -> wf_cell c = true ->
+  let T := tile_unit_cell c nx ny in
+  let ns := n_sites c in
+  let ne := n_uedges c in
+  z_scale T = uc_scale c * nx * ny /\
+  zlen (z_pos T) = nx * ny * ns /\ zlen (z_edges T) = nx * ny * ne /\ zlen (z_crossing T) = nx * ny * ne /\
+  (forall mx my s, 0 <= mx < nx -> 0 <= my < ny -> 0 <= s < ns ->
+     znth ((my * nx + mx) * ns + s) (z_pos T) (0,0)
+     = ((fst (znth s (uc_points c) (0,0)) + mx * uc_scale c) * ny,
+        (snd (znth s (uc_points c) (0,0)) + my * uc_scale c) * nx)) /\
+  (forall mx my e, 0 <= mx < nx -> 0 <= my < ny -> 0 <= e < ne ->
+     let j := fst (znth e (uc_edges c) (0,0)) in
+     let k := snd (znth e (uc_edges c) (0,0)) in
+     let cx := fst (znth e (uc_crossing c) (0,0)) in
+     let cy := snd (znth e (uc_crossing c) (0,0)) in
+     znth ((my * nx + mx) * ne + e) (z_edges T) (0,0)
+       = (j + (my * nx + mx) * ns, k + (((my + cy) mod ny) * nx + (mx + cx) mod nx) * ns) /\
+     znth ((my * nx + mx) * ne + e) (z_crossing T) (0,0) = ((mx + cx) / nx, (my + cy) / ny)).
+Proof. exact tile_structure. Qed.
+Print Assumptions C08_tile_structure.
+
+(* Clause "the Bloch Hamiltonian is Hermitian": for any ring involution conj with conj w = w^-1 (|w| = 1)
+   and tb = conj t (the code's hoppings.conj()):  conj (H(w)[b,a]) = H(w)[a,b]. *)
+Theorem C08_hk_hermitian :
+  forall (R : Type) (rO rI : R) (radd rmul rsub : R -> R -> R) (ropp : R -> R),
+  ring_theory rO rI radd rmul rsub ropp eq ->
+  forall conj : R -> R,
+  (forall x y, conj (radd x y) = radd (conj x) (conj y)) ->
+  (forall x y, conj (rmul x y) = rmul (conj x) (conj y)) ->
+  conj rO = rO -> conj rI = rI -> (forall x, conj (conj x) = x) ->
+  forall wx wxi wy wyi : R, conj wx = wxi -> conj wy = wyi ->
+  forall (es cr : list (Z * Z)) (t : list R) (a b : Z),
+  conj (hk_entry R rO rI radd rmul es cr t (map conj t) wx wxi wy wyi b a)
+  = hk_entry R rO rI radd rmul es cr t (map conj t) wx wxi wy wyi a b.
+Proof. exact hk_hermitian. Qed.
+Print Assumptions C08_hk_hermitian.
+
+(* Clause "equals the real-space Hamiltonian at k = 0": H(1,1) = bond-sum Hamiltonian of the cell. *)
+Theorem C08_hk_gamma :
+  forall (R : Type) (rO rI : R) (radd rmul rsub : R -> R -> R) (ropp : R -> R),
+  ring_theory rO rI radd rmul rsub ropp eq ->
+  forall (es cr : list (Z * Z)) (t tb : list R) (a b : Z),
+  (Nat.min (length es) (Nat.min (length t) (length tb)) <= length cr)%nat ->
+  hk_entry R rO rI radd rmul es cr t tb rI rI rI rI a b = ham_entry R rO radd es t tb a b.
+Proof. exact hk_gamma. Qed.
+Print Assumptions C08_hk_gamma.
+
+(* Clause "2*pi-periodic in each momentum component".  In the model H depends on k only through
+   (wx, wy) = (e^{i kx}, e^{i ky}) BY CONSTRUCTION (hk_entry takes w, not k).  For the executable instance that
+   is compared entry by entry with the implementation (w = i^q, k = q*pi/2) periodicity reads: *)
+Theorem C08_hk_periodic :
+  forall (es cr : list (Z * Z)) (J : list Z) (col : option (list Z)) (u : list Z) (qa qb a b : Z),
+  hk_gauss es cr J col u (qa + 4) qb a b = hk_gauss es cr J col u qa qb a b /\
+  hk_gauss es cr J col u qa (qb + 4) a b = hk_gauss es cr J col u qa qb a b.
+Proof. intros. split; [apply hk_gauss_periodic_a | apply hk_gauss_periodic_b]. Qed.
+Print Assumptions C08_hk_periodic.
+
+(* the same instance is Hermitian and equals the model of majorana_hamiltonian at k = 0 *)
+Theorem C08_hk_gauss_hermitian_gamma :
+  forall (es cr : list (Z * Z)) (J : list Z) (col : option (list Z)) (u : list Z) (qa qb a b : Z),
+  gconj (hk_gauss es cr J col u qa qb b a) = hk_gauss es cr J col u qa qb a b /\
+  ((length es <= length cr)%nat -> hk_gauss es cr J col u 0 0 a b = ham_gauss es J col u a b).
+Proof. intros. split; [apply hk_gauss_hermitian | apply hk_gauss_gamma]. Qed.
+Print Assumptions C08_hk_gauss_hermitian_gamma.
+
+(* Clause "the analysis helpers report the mean of the lower half of the eigenvalues over the sampled grid,
+   the smallest absolute eigenvalue on it, and the per-momentum minimum absolute eigenvalue" — the
+   functionals of Model/Bloch.v (tied to analyse_hk / gap_over_phase_space by K) are exactly these: *)
+Theorem C08_k_grid :
+  forall nkx nky : Z, 1 <= nkx -> 1 <= nky ->
+  length (k_grid nkx nky) = Z.to_nat (nkx * nky) /\
+  (forall mx my, 0 <= mx < nkx -> 0 <= my < nky ->
+     znth (my * nkx + mx) (k_grid nkx nky) (0%Q, 0%Q) = (mx # Z.to_pos nkx, my # Z.to_pos nky)) /\
+  (forall p, In p (k_grid nkx nky) -> (0 <= fst p < 1)%Q /\ (0 <= snd p < 1)%Q).
+Proof. exact k_grid_spec. Qed.
+Print Assumptions C08_k_grid.
+
+Theorem C08_analyse_mean :
+  forall (spectra : list (list Q)) (n : Z), spectra <> [] -> 0 < n ->
+  (ground_state_per_site spectra n * (inject_Z (Z.of_nat (length spectra)) * inject_Z n)
+   == 2 * qsum (flat_map lower_half spectra))%Q.
+Proof. exact ground_state_per_site_spec. Qed.
+Print Assumptions C08_analyse_mean.
+
+Theorem C08_lower_half :
+  forall es : list Q, length (lower_half es) = Nat.div (length es) 2 /\
+                      es = lower_half es ++ skipn (Nat.div (length es) 2) es.
+Proof. intros. split; [apply lower_half_length | apply lower_half_prefix]. Qed.
+Print Assumptions C08_lower_half.
+
+Theorem C08_analyse_gap :
+  forall (spectra : list (list Q)) (m : Q), gap_size spectra = Some m ->
+  (forall x, In x (flat_map lower_half spectra) -> (m <= Qabs x)%Q) /\
+  (exists x, In x (flat_map lower_half spectra) /\ (m == Qabs x)%Q).
+Proof. exact gap_size_spec. Qed.
+Print Assumptions C08_analyse_gap.
+
+Theorem C08_gap_grid :
+  forall spectra : list (list Q),
+  length (gaps spectra) = length spectra /\
+  (forall i, nth i (gaps spectra) None = qabs_min (nth i spectra [])) /\
+  (forall l m, qabs_min l = Some m ->
+     (forall x, In x l -> (m <= Qabs x)%Q) /\ (exists x, In x l /\ (m == Qabs x)%Q)).
+Proof.
+  intros. destruct (gaps_spec spectra) as (H1 & H2). split; [exact H1|]. split; [exact H2|]. exact qabs_min_spec.
+Qed.
+Print Assumptions C08_gap_grid.
+
+(* Non-vacuity: the hypotheses of C08_bloch_intertwines hold for the 4-site honeycomb cell
+   honeycomb_lattice(1) — which has PARALLEL edges (2,1),(2,1) and (0,3),(0,3) — over the Gaussian integers with
+   wx = i (nx = 4), wy = -1 (ny = 2), weights t_e = i and tb_e = conj t_e = -i; the Bloch matrix has the
+   accumulated entry H[1,2] = t*w^0 + t*wx = i + i*i = -1 + i there. *)
+Definition hc_cell : unit_cell :=
+  let L := honeycomb 1 in mkCell (z_scale L) (z_pos L) (z_edges L) (z_crossing L).
+Example C08_bloch_nonvacuous :
+  ring_theory g0 g1 gadd gmul gsub gopp eq /\
+  wf_cell hc_cell = true /\ n_sites hc_cell = 4 /\ n_uedges hc_cell = 6 /\
+  znth 1 (uc_edges hc_cell) (0,0) = (2, 1) /\ znth 3 (uc_edges hc_cell) (0,0) = (2, 1) /\
+  znth 1 (uc_crossing hc_cell) (0,0) = (0, 0) /\ znth 3 (uc_crossing hc_cell) (0,0) = (1, 0) /\
+  let t := repeat (0, 1) 6 in let tb := map gconj t in
+  zlen t = n_uedges hc_cell /\ zlen tb = n_uedges hc_cell /\
+  gmul (0, 1) (0, -1) = g1 /\ gmul (-1, 0) (-1, 0) = g1 /\
+  rpow gz g1 gmul (0, 1) (Z.to_nat 4) = g1 /\ rpow gz g1 gmul (-1, 0) (Z.to_nat 2) = g1 /\
+  hk_entry gz g0 g1 gadd gmul (uc_edges hc_cell) (uc_crossing hc_cell) t tb (0, 1) (0, -1) (-1, 0) (-1, 0) 1 2 = (-1, 1).
+Proof. split; [exact gz_ring|]. vm_compute. repeat split; reflexivity. Qed.
